@@ -74,7 +74,7 @@ def cases(tier, seed):
         for pos in ("property", "items", "additionalProperties", "allOf-member", "oneOf-member", "nested-property"):
             for where in ("component", "response", "requestBody", "parameter"):
                 out.append({"kind": "malformed", "bad": bad, "pos": pos, "where": where, "L": None})
-    out.append({"kind": "tlc", "names": ["User", "UserGroup", "UserGroupItem"], "max_depth": 2, "max_frames": 2 if tier == "quick" else 3, "L": None})
+    out.append({"kind": "tlc", "names": ["User", "UserGroup", "UserGroupItem"], "max_depth": 2, "max_frames": 2 if tier == "quick" else 3, "L": None, "_timeout_s": 900 if tier == "quick" else 3600})
     # long-running chain cases first (tail latency), then dedupe
     out = [c for c in out if c["kind"] == "tlc"] + [c for c in out if c["kind"] == "chain"][::-1] + [c for c in out if c["kind"] == "malformed"] \
         + [c for c in out if c["kind"] == "graph"]
